@@ -42,7 +42,7 @@ func runC06(p *core.Prog, r *core.Report) {
 // annotation is compared with the requested tag, either the annotation is known to be present (the
 // comma-ok form of the lookup) or the tag is known to be set.
 func c06R9(p *core.Prog, r *core.Report, rule string) {
-	r.Rule(rule, "untagged entries are not matched by an empty tag: every exact comparison of a ref.name annotation with the requested tag in scheme/ocidir is guarded by the presence of the annotation (comma-ok lookup) or by a test that the tag is not empty (a push by digest must not replace, and a later collection must not sweep, the untagged entries of other images)", 3)
+	r.Rule(rule, "untagged entries are not matched by an empty tag: every exact comparison of a ref.name annotation with the requested tag in scheme/ocidir is guarded by the presence of the annotation (comma-ok lookup, or a test that it is not empty) or by a test that the tag is not empty (a push by digest must not replace, and a later collection must not sweep, the untagged entries of other images)", 3)
 	n := 0
 	for _, fn := range pkgFuncs(p, "scheme/ocidir") {
 		lab := labeler{}
@@ -81,6 +81,10 @@ func c06R9(p *core.Prog, r *core.Report, rule string) {
 					if gb, ok := c.(*ssa.BinOp); ok && (gb.Op == token.NEQ || gb.Op == token.EQL) {
 						for _, side := range [][2]ssa.Value{{gb.X, gb.Y}, {gb.Y, gb.X}} {
 							if sv, isC := core.ConstString(side[1]); isC && sv == "" && isTagValue(side[0]) && (gb.Op == token.NEQ) == pol {
+								guarded = true
+							}
+							// the annotation itself is known not to be empty: an entry without a name cannot match
+							if sv, isC := core.ConstString(side[1]); isC && sv == "" && refNameLookup(side[0], map[ssa.Value]bool{}) && (gb.Op == token.NEQ) == pol {
 								guarded = true
 							}
 						}
